@@ -333,7 +333,8 @@ impl Property for C10 {
             }
             for (i, a) in areas.iter().enumerate() {
                 if a.length != a.data.len() as u64 {
-                    fail(&mut out, "invariant|length-field-differs-from-data", format!("after {}: area {:#x} length {} but {} bytes", desc, a.start, a.length, a.data.len()));
+                    // (the hook serves the bytes of [start, start+length): fewer means the area claims bytes it does not hold)
+                    fail(&mut out, "invariant|area-holds-fewer-bytes-than-its-length", format!("after {}: area {:#x} length {} but only {} bytes behind it", desc, a.start, a.length, a.data.len()));
                     return out;
                 }
                 for b in areas.iter().skip(i + 1) {
